@@ -759,4 +759,302 @@ Section Buf.
     unfold new_map, get. cbn. eexists. rewrite lookup_app_r by lia.
     rewrite Nat.sub_diag. cbn. split; reflexivity.
   Qed.
+
 End Buf.
+
+(** ** Automation: [mild m E] by peeling the helpers off [E] from the outside *)
+Create HintDb mild discriminated.
+
+Ltac brk :=
+  repeat match goal with
+         | |- context [match ?x with _ => _ end] =>
+           lazymatch x with
+           | context [match _ with _ => _ end] => fail
+           | _ => destruct x eqn:?
+           end
+         end.
+
+Ltac mild_core_tac := solve [apply mild_core; repeat split; reflexivity].
+
+#[export] Hint Resolve mild_refl : mild.
+#[export] Hint Extern 2 (mild ?K _ (set _ _ ?X)) =>
+  (apply (mild_trans K _ X); [|mild_core_tac]) : mild.
+#[export] Hint Extern 1 (mild _ _ (emit _ _)) =>
+  (eapply mild_trans; [|apply mild_emit; reflexivity]) : mild.
+#[export] Hint Extern 1 (mild _ _ (emit_bad _ _ _)) =>
+  (eapply mild_trans; [|apply mild_emit_bad; discriminate]) : mild.
+#[export] Hint Extern 1 (mild _ _ (remove_from_list _ _)) =>
+  (eapply mild_trans; [|apply mild_remove_from_list]) : mild.
+#[export] Hint Extern 1 (mild _ _ (dec_rc_m _ _)) =>
+  (eapply mild_trans; [|apply mild_dec_rc_m]) : mild.
+#[export] Hint Extern 1 (mild _ _ (dealloc _ _ _)) =>
+  (eapply mild_trans; [|apply mild_dealloc]) : mild.
+#[export] Hint Extern 1 (mild _ _ (fst (new_node _ _ _))) =>
+  (eapply mild_trans; [|apply mild_new_node]) : mild.
+#[export] Hint Extern 1 (mild _ _ (fst (new_map _))) =>
+  (eapply mild_trans; [|apply mild_new_map]) : mild.
+(** updates of non-header, non-box object fields, and of header fields other than the mark *)
+#[export] Hint Extern 3 (mild _ _ (upd _ _ _)) =>
+  (eapply mild_trans; [|solve [apply mild_upd; intros ?; repeat split; reflexivity]]) : mild.
+#[export] Hint Extern 3 (mild _ _ (uhdr _ _ _)) =>
+  (eapply mild_trans; [|solve [apply mild_uhdr; intros ?; reflexivity]]) : mild.
+
+Ltac mild_solve := solve [eauto 40 with mild].
+
+Section Helpers.
+  Context (K : conf) (P : prog).
+  Implicit Types (m : machine).
+  Notation mild := (mild K).
+
+  Lemma mild_sfree o m : mild m (sfree o m).
+  Proof. unfold sfree. brk; mild_solve. Qed.
+  Lemma mild_uside o f m : mild m (uside o f m).
+  Proof. unfold uside. mild_solve. Qed.
+  Hint Extern 1 (mild _ (sfree _ _)) => (eapply mild_trans; [|apply mild_sfree]) : mild.
+  Hint Extern 1 (mild _ (uside _ _ _)) => (eapply mild_trans; [|apply mild_uside]) : mild.
+  Lemma mild_drop_metadata o m : mild m (drop_metadata K o m).
+  Proof. unfold drop_metadata. brk; mild_solve. Qed.
+  Lemma mild_init_side o m : mild m (init_side o m).
+  Proof.
+    unfold init_side. brk; mild_solve.
+  Qed.
+  Lemma mild_weak_strong_count w m : mild m (weak_strong_count w m).1.
+  Proof. unfold weak_strong_count. brk; cbn [fst]; mild_solve. Qed.
+  Lemma mild_weak_weak_count w m : mild m (weak_weak_count w m).1.
+  Proof. unfold weak_weak_count. brk; cbn [fst]; mild_solve. Qed.
+  Lemma mild_weak_clone w m m' : weak_clone w m = Some m' -> mild m m'.
+  Proof. unfold weak_clone. brk; intros [= <-]; mild_solve. Qed.
+  Lemma mild_weak_drop w m : mild m (weak_drop w m).
+  Proof. unfold weak_drop. brk; mild_solve. Qed.
+  Hint Extern 1 (mild _ (weak_drop _ _)) => (eapply mild_trans; [|apply mild_weak_drop]) : mild.
+  Lemma mild_weak_drop_opt w m : mild m (weak_drop_opt w m).
+  Proof. unfold weak_drop_opt. brk; mild_solve. Qed.
+
+  Lemma mild_node_via_slot i m : mild m (node_via_slot i m).1.
+  Proof. unfold node_via_slot. brk; cbn [fst]; mild_solve. Qed.
+  Lemma mild_resolve self l m : mild m (resolve self l m).1.
+  Proof.
+    unfold resolve. destruct l as [i|j|i j]; cbn [fst]; try apply mild_refl.
+    - brk; cbn [fst]; apply mild_refl.
+    - pose proof (mild_node_via_slot i m) as H.
+      destruct (node_via_slot i m) as [m1 n]. cbn [fst] in H. brk; cbn [fst]; exact H.
+  Qed.
+  Lemma mild_wresolve self l m : mild m (wresolve self l m).1.
+  Proof.
+    unfold wresolve. destruct l as [i|j|i j|]; cbn [fst]; try apply mild_refl.
+    - brk; cbn [fst]; apply mild_refl.
+    - pose proof (mild_node_via_slot i m) as H.
+      destruct (node_via_slot i m) as [m1 n]. cbn [fst] in H. brk; cbn [fst]; exact H.
+  Qed.
+  Lemma mild_nresolve self n m : mild m (nresolve self n m).1.
+  Proof.
+    unfold nresolve. destruct n; cbn [fst]; [apply mild_refl|apply mild_node_via_slot].
+  Qed.
+  Lemma mild_write_loc r v m : mild m (write_loc r v m).
+  Proof. unfold write_loc. brk; mild_solve. Qed.
+  Lemma mild_write_wloc r v m : mild m (write_wloc r v m).
+  Proof. unfold write_wloc. brk; mild_solve. Qed.
+  Lemma mild_set_fuse k n m : mild m (set_fuse k n m).
+  Proof. unfold set_fuse. brk; mild_solve. Qed.
+  Hint Extern 1 (mild _ (set_fuse _ _ _)) => (eapply mild_trans; [|apply mild_set_fuse]) : mild.
+  Lemma mild_tick k m : mild m (tick k m).1.
+  Proof. unfold tick. brk; cbn [fst]; mild_solve. Qed.
+  Lemma mild_adjust_trigger_point m : mild m (adjust_trigger_point K m).
+  Proof. unfold adjust_trigger_point, adjust. brk; mild_solve. Qed.
+  Lemma mild_map_insert mo a sc m : mild m (map_insert mo a sc m).1.
+  Proof. unfold map_insert. brk; cbn [fst]; mild_solve. Qed.
+  Lemma mild_ok m r : mild m (ok m r).1.
+  Proof. unfold ok. cbn [fst]. mild_solve. Qed.
+  Lemma mild_traced_children m o : mild m (traced_children P m o).1.
+  Proof. unfold traced_children. brk; cbn [fst]; mild_solve. Qed.
+  Lemma mild_trace_event o m : mild m (trace_event K o m).1.
+  Proof.
+    unfold trace_event. destruct (is_map m o); cbn [fst]; [apply mild_refl|].
+    eapply mild_trans; [|apply mild_tick]. mild_solve.
+  Qed.
+
+  Lemma mild_fold {B} (f : machine -> B -> machine) :
+    (forall m a, mild m (f m a)) -> forall l m, mild m (fold_left f l m).
+  Proof.
+    intros Hf l. induction l as [|a l IH]; cbn; intros m; [apply mild_refl|].
+    eapply mild_trans; [apply Hf|apply IH].
+  Qed.
+  Lemma mild_reset_buffered m : mild m (reset_buffered m).
+  Proof. unfold reset_buffered. apply mild_fold. intros; mild_solve. Qed.
+  Lemma mild_fold_weak_drop l m : mild m (fold_left (fun m w => weak_drop_opt w m) l m).
+  Proof. apply mild_fold. intros. apply mild_weak_drop_opt. Qed.
+End Helpers.
+
+#[export] Hint Extern 1 (mild _ _ (sfree _ _)) => (eapply mild_trans; [|apply mild_sfree]) : mild.
+#[export] Hint Extern 1 (mild _ _ (uside _ _ _)) => (eapply mild_trans; [|apply mild_uside]) : mild.
+#[export] Hint Extern 1 (mild _ _ (drop_metadata _ _ _)) => (eapply mild_trans; [|apply mild_drop_metadata]) : mild.
+#[export] Hint Extern 1 (mild _ _ (init_side _ _)) => (eapply mild_trans; [|apply mild_init_side]) : mild.
+#[export] Hint Extern 1 (mild _ _ (fst (weak_strong_count _ _))) => (eapply mild_trans; [|apply mild_weak_strong_count]) : mild.
+#[export] Hint Extern 1 (mild _ _ (fst (weak_weak_count _ _))) => (eapply mild_trans; [|apply mild_weak_weak_count]) : mild.
+#[export] Hint Extern 1 (mild _ _ (weak_drop _ _)) => (eapply mild_trans; [|apply mild_weak_drop]) : mild.
+#[export] Hint Extern 1 (mild _ _ (weak_drop_opt _ _)) => (eapply mild_trans; [|apply mild_weak_drop_opt]) : mild.
+#[export] Hint Extern 1 (mild _ _ (fst (node_via_slot _ _))) => (eapply mild_trans; [|apply mild_node_via_slot]) : mild.
+#[export] Hint Extern 1 (mild _ _ (fst (resolve _ _ _))) => (eapply mild_trans; [|apply mild_resolve]) : mild.
+#[export] Hint Extern 1 (mild _ _ (fst (wresolve _ _ _))) => (eapply mild_trans; [|apply mild_wresolve]) : mild.
+#[export] Hint Extern 1 (mild _ _ (fst (nresolve _ _ _))) => (eapply mild_trans; [|apply mild_nresolve]) : mild.
+#[export] Hint Extern 1 (mild _ _ (write_loc _ _ _)) => (eapply mild_trans; [|apply mild_write_loc]) : mild.
+#[export] Hint Extern 1 (mild _ _ (write_wloc _ _ _)) => (eapply mild_trans; [|apply mild_write_wloc]) : mild.
+#[export] Hint Extern 1 (mild _ _ (set_fuse _ _ _)) => (eapply mild_trans; [|apply mild_set_fuse]) : mild.
+#[export] Hint Extern 1 (mild _ _ (fst (tick _ _))) => (eapply mild_trans; [|apply mild_tick]) : mild.
+#[export] Hint Extern 1 (mild _ _ (adjust_trigger_point _ _)) => (eapply mild_trans; [|apply mild_adjust_trigger_point]) : mild.
+#[export] Hint Extern 1 (mild _ _ (fst (map_insert _ _ _ _))) => (eapply mild_trans; [|apply mild_map_insert]) : mild.
+#[export] Hint Extern 1 (mild _ _ (fst (ok _ _))) => (eapply mild_trans; [|apply mild_ok]) : mild.
+#[export] Hint Extern 1 (mild _ _ (fst (traced_children _ _ _))) => (eapply mild_trans; [|apply mild_traced_children]) : mild.
+#[export] Hint Extern 1 (mild _ _ (fst (trace_event _ _ _))) => (eapply mild_trans; [|apply mild_trace_event]) : mild.
+#[export] Hint Extern 1 (mild _ _ (reset_buffered _)) => (eapply mild_trans; [|apply mild_reset_buffered]) : mild.
+#[export] Hint Extern 1 (mild _ _ (fold_left (fun m w => weak_drop_opt w m) _ _)) => (eapply mild_trans; [|apply mild_fold_weak_drop]) : mild.
+
+(** ** Bulk re-marking: the guards that unlink whole lists *)
+Section Bulk.
+  Context (K : conf).
+  Notation Imk := (Imk K).
+
+  Lemma frame_fold {B} (f : machine -> B -> machine) :
+    (forall m a, frame m (f m a)) -> forall l m, frame m (fold_left f l m).
+  Proof.
+    intros Hf l. induction l as [|a l IH]; cbn; intros m; [apply frame_refl|].
+    eapply frame_trans; [apply Hf|apply IH].
+  Qed.
+  Lemma frame_fold_uhdr f L m : frame m (fold_left (fun m g => uhdr g f m) L m).
+  Proof. apply frame_fold. intros. apply frame_uhdr. Qed.
+  Lemma frame_unmark_all L m : frame m (unmark_all L m).
+  Proof. apply frame_fold_uhdr. Qed.
+
+  Lemma fold_uhdr_proj f L m :
+    let m' := fold_left (fun m g => uhdr g f m) L m in
+    pc m' = pc m /\ pc_size m' = pc_size m /\ pc_alive m' = pc_alive m /\
+    st_alloc m' = st_alloc m /\ log m' = log m /\ st_collecting m' = st_collecting m.
+  Proof.
+    revert m. induction L as [|a L IH]; intros m; cbn; [repeat split|].
+    destruct (IH (uhdr a f m)) as (A1 & A2 & A3 & A4 & A5 & A6). repeat split; assumption.
+  Qed.
+
+  Lemma get_fold_uhdr f L m o :
+    (forall h, f (f h) = f h) ->
+    get (fold_left (fun m g => uhdr g f m) L m) o =
+    if decide (o ∈ L) then (fun x => x <| o_hdr ::= f |>) <$> get m o else get m o.
+  Proof.
+    intros Hf. revert m. induction L as [|a L IH]; intros m; cbn.
+    - rewrite decide_False by (apply not_elem_of_nil). reflexivity.
+    - rewrite IH, get_uhdr.
+      destruct (decide (o ∈ L)) as [HL|HL], (decide (a = o)) as [->|Hne].
+      + rewrite decide_True by (apply elem_of_cons; auto).
+        destruct (get m o) as [x|]; [|reflexivity]. cbn. f_equal. destruct x. unfold set. cbn. rewrite Hf. reflexivity.
+      + rewrite decide_True by (apply elem_of_cons; auto). reflexivity.
+      + rewrite decide_True by (apply elem_of_cons; auto). reflexivity.
+      + rewrite decide_False; [reflexivity|]. rewrite elem_of_cons. intros [?|?]; congruence.
+  Qed.
+
+  Lemma bytes_fold_uhdr f L m : bytes K (fold_left (fun m g => uhdr g f m) L m) = bytes K m.
+  Proof.
+    revert m. induction L as [|a L IH]; intros m; cbn; [reflexivity|]. rewrite IH.
+    unfold bytes, uhdr, upd. cbn. apply bytes_of_alter_same. intros x. reflexivity.
+  Qed.
+
+  Lemma Imk_bulk Ls Qs Ls' Qs' m m' f L :
+    Imk Ls Qs m -> (forall h, f (f h) = f h) ->
+    heap m' = heap (fold_left (fun m g => uhdr g f m) L m) ->
+    pc_size m' = N.of_nat (length (pc m')) -> pc_alive m' = pc_alive m ->
+    st_alloc m' = st_alloc m -> uflow m' = false ->
+    NoDup (pc m') -> NoDup (Ls' ++ Qs') ->
+    (forall o, o ∈ pc m' ++ Ls' ++ Qs' -> o ∈ pc m ++ Ls ++ Qs) ->
+    (forall o x, get m o = Some x ->
+       let mk := if decide (o ∈ L) then h_mark (f (o_hdr x)) else h_mark (o_hdr x) in
+       (mk = PC <-> o ∈ pc m') /\ (mk = IL <-> o ∈ Ls') /\ (mk = IQ <-> o ∈ Qs') /\
+       (o_box x = BNotYet -> mk = NM)) ->
+    Imk Ls' Qs' m'.
+  Proof.
+    intros I Hf Eh Es Ea Eb Eu Hnd Hnd' Hval Hmk.
+    assert (Hg : forall o y, get m' o = Some y -> exists x, get m o = Some x /\ o_box y = o_box x /\
+               h_mark (o_hdr y) = if decide (o ∈ L) then h_mark (f (o_hdr x)) else h_mark (o_hdr x)).
+    { intros o y E. unfold get in E. rewrite Eh in E. fold (get (fold_left (fun m g => uhdr g f m) L m) o) in E.
+      rewrite get_fold_uhdr in E by exact Hf. destruct (decide (o ∈ L)).
+      - destruct (get m o) as [x|]; [|discriminate]. cbn in E. injection E as <-. exists x. auto.
+      - exists y. auto. }
+    split; try assumption.
+    - intros o Ho. destruct (ik_valid _ _ _ _ I o (Hval o Ho)) as [x Ex].
+      unfold get. rewrite Eh. fold (get (fold_left (fun m g => uhdr g f m) L m) o).
+      rewrite get_fold_uhdr, Ex by exact Hf. destruct (decide (o ∈ L)); cbn; eauto.
+    - intros o y E. destruct (Hg o y E) as (x & Ex & _ & ->). apply (Hmk o x Ex).
+    - intros o y E. destruct (Hg o y E) as (x & Ex & _ & ->). apply (Hmk o x Ex).
+    - intros o y E. destruct (Hg o y E) as (x & Ex & _ & ->). apply (Hmk o x Ex).
+    - intros o y E. destruct (Hg o y E) as (x & Ex & -> & ->). apply (Hmk o x Ex).
+    - rewrite Eb, (ik_bytes _ _ _ _ I). unfold bytes at 2. rewrite Eh.
+      symmetry. apply bytes_fold_uhdr.
+    - rewrite Ea. exact (ik_alive _ _ _ _ I).
+  Qed.
+
+  (** dropping the collector lists: every linked object is un-marked *)
+  Lemma Imk_unlink_all Ls Qs m f L :
+    Imk Ls Qs m -> (forall h, f (f h) = f h) -> (forall h, h_mark (f h) = NM) ->
+    (forall o, o ∈ L <-> o ∈ Ls ++ Qs) ->
+    Imk [] [] (fold_left (fun m g => uhdr g f m) L m).
+  Proof.
+    intros I Hf Hnm HL.
+    destruct (fold_uhdr_proj f L m) as (A1 & A2 & A3 & A4 & A5 & A6).
+    eapply (Imk_bulk Ls Qs [] [] m _ f L I Hf); try reflexivity.
+    - rewrite A2, A1. exact (ik_size _ _ _ _ I).
+    - exact A3.
+    - exact A4.
+    - unfold uflow. rewrite A5. exact (ik_uflow _ _ _ _ I).
+    - rewrite A1. exact (ik_nodup _ _ _ _ I).
+    - constructor.
+    - intros o. rewrite A1, !elem_of_app. intros [?|[H|H]]; [auto|inversion H|inversion H].
+    - intros o x Ex. cbn zeta. rewrite A1.
+      pose proof (Imk_mark_cases _ _ _ _ _ _ I Ex) as Hc. rewrite Hnm.
+      destruct (decide (o ∈ L)) as [Hin|Hin].
+      + apply HL, elem_of_app in Hin.
+        repeat split; try discriminate; try (intros H; inversion H; fail).
+        intros Hpc. exfalso. destruct (h_mark (o_hdr x)); tauto.
+      + rewrite HL, elem_of_app in Hin.
+        repeat split; try (intros H; inversion H; fail).
+        * intros Hm. rewrite Hm in Hc. tauto.
+        * intros Hp. destruct (h_mark (o_hdr x)); tauto.
+        * intros Hm. rewrite Hm in Hc. tauto.
+        * intros Hm. rewrite Hm in Hc. tauto.
+        * apply (ik_box _ _ _ _ I o x Ex).
+  Qed.
+
+  Lemma Imk_unmark_all Ls Qs m L :
+    Imk Ls Qs m -> (forall o, o ∈ L <-> o ∈ Ls ++ Qs) -> Imk [] [] (unmark_all L m).
+  Proof. intros I HL. apply (Imk_unlink_all Ls Qs); auto. Qed.
+
+  (** swap_list + mark_self_and_append: the finalized list goes back to the buffer *)
+  Lemma Imk_rebuffer L m :
+    Imk L [] m ->
+    Imk [] [] (fold_left (fun m g => uhdr g (fun h => set_mark PC (reset_tc h)) m) L m
+                 <| pc ::= fun old => L ++ old |> <| pc_size ::= fun s => N.of_nat (length L) + s |>).
+  Proof.
+    intros I. set (f := fun h => set_mark PC (reset_tc h)).
+    destruct (fold_uhdr_proj f L m) as (A1 & A2 & A3 & A4 & A5 & A6).
+    assert (HndL : NoDup L).
+    { pose proof (ik_lists _ _ _ _ I) as H. rewrite app_nil_r in H. exact H. }
+    assert (Hdisj : forall o, o ∈ L -> o ∉ pc m).
+    { intros o Ho Hp. destruct (ik_valid _ _ _ _ I o) as [x Ex]; [rewrite !elem_of_app; auto|].
+      pose proof (Imk_mark_cases _ _ _ _ _ _ I Ex) as Hc. destruct (h_mark (o_hdr x)); tauto. }
+    eapply (Imk_bulk L [] [] [] m _ f L I); try reflexivity.
+    - cbn. rewrite A2, A1, app_length, (ik_size _ _ _ _ I). lia.
+    - exact A3.
+    - exact A4.
+    - unfold uflow. cbn. rewrite A5. exact (ik_uflow _ _ _ _ I).
+    - cbn. rewrite A1. apply NoDup_app. split; [exact HndL|]. split; [exact Hdisj|exact (ik_nodup _ _ _ _ I)].
+    - constructor.
+    - intros o. cbn. rewrite A1, !elem_of_app. tauto.
+    - intros o x Ex. cbn zeta. cbn [pc set]. rewrite A1, elem_of_app.
+      pose proof (Imk_mark_cases _ _ _ _ _ _ I Ex) as Hc.
+      destruct (decide (o ∈ L)) as [Hin|Hin]; cbn.
+      + repeat split; try discriminate; try (intros H; inversion H; fail); auto.
+        intros Hb. pose proof (ik_box _ _ _ _ I o x Ex Hb) as Hm. rewrite Hm in Hc. tauto.
+      + repeat split; try (intros H; inversion H; fail).
+        * intros Hm. rewrite Hm in Hc. tauto.
+        * intros [?|Hp]; [tauto|]. destruct (h_mark (o_hdr x)); tauto.
+        * intros Hm. rewrite Hm in Hc. tauto.
+        * intros Hm. rewrite Hm in Hc. destruct Hc as (_ & _ & Hq). inversion Hq.
+        * apply (ik_box _ _ _ _ I o x Ex).
+  Qed.
+End Bulk.
